@@ -126,7 +126,7 @@ func (s *compositeSchedule) Left() int {
 		s.rwMu.Unlock()
 		return s.Left()
 	}
-	if left < 0 {
+	if left < 0 || leftAfter < 0 {
 		return -1
 	}
 	return left + leftAfter
